@@ -113,6 +113,27 @@ impl Property for C06 {
                 }
             }
         }
+        for t in [TID_D, TID_A, 18u8] {
+            let c = fixed_cap(t).unwrap_or(usize::MAX);
+            for n in LONG_LENS {
+                if !sh.mine() {
+                    continue;
+                }
+                let n = n.min(c);
+                for a in long_values(n) {
+                    for k in [0usize, 1, 63, 64, 65, 1000, 1024, 1025, n / 2, n - 1024, n - 64, n - 1, n] {
+                        if k > n {
+                            continue;
+                        }
+                        for left in [true, false] {
+                            if !f(C06Case { a: Operand::canon(t, a.clone()), k, left }) {
+                                return;
+                            }
+                        }
+                    }
+                }
+            }
+        }
         let nmax = tier.pick(100, 320);
         for t in 0..NT {
             let c = fixed_cap(t).unwrap_or(nmax).min(nmax);
